@@ -61,7 +61,7 @@ struct Reg {
       pts.push_back(Pt(0, 0, 0, 0, true));
       return pts;
     };
-    s.reference = chem_ref; s.max_dev_quick = 1; s.max_dev_thorough = 2;
+    s.reference = chem_ref; s.max_dev_quick = 2; s.max_dev_thorough = 3;
     e1_systems().push_back(s);
   }
 } reg;
